@@ -89,6 +89,9 @@ def run(ctx):
             with quiet():
                 cell.branch(gbranches).add_to_group("grp")
                 cell.branch(nb - 1).add_to_group("last")
+                # a group that holds only PART of a branch (one compartment of a branch that a call will modify if possible)
+                pb = rng.choice([bb for bb, _n in seq] or [0])
+                cell.branch(pb).comp(0).add_to_group("part")
             total_len = [sum(cell.branch(b).nodes["length"]) for b in range(nb)]
             cur = list(counts)
             for (b, n) in seq:
@@ -128,6 +131,10 @@ def run(ctx):
                 if abs(sum(cell.branch(b).nodes["length"]) - total_len[b]) > 1e-9:
                     viol.append(dict(desc, kind="total length of a branch changed", branch=b))
             # group membership by branch
+            got_part = sorted(set(int(x) for x in cell.nodes.loc[cell.groups["part"], "global_branch_index"]))
+            if got_part != [pb]:
+                viol.append(dict(desc, kind="a named group that held part of a branch changed its branch membership", group="part", branches_now=got_part,
+                                 branches_expected=[pb], rows=[int(x) for x in cell.groups["part"]]))
             for gname, want in (("grp", gbranches), ("last", [nb - 1])):
                 got = sorted(set(int(x) for x in cell.nodes.loc[cell.groups[gname], "global_branch_index"]))
                 full = all(sum(1 for x in cell.groups[gname] if int(cell.nodes.loc[x, "global_branch_index"]) == bb) == cur[bb] for bb in want)
